@@ -2,6 +2,7 @@ import Pyunicorn.Model.Proto
 import Pyunicorn.Model.Recurrence
 import Pyunicorn.Model.RecurrenceObjects
 import Pyunicorn.Model.RecurrenceRqa
+import Pyunicorn.Model.RecurrenceStruct
 /-! Line-protocol driver for C07: one request per line on stdin, one answer per line.
 
 values: rationals `p/q`, `nan`; matrices rows separated by `;`; empty = `-`;
@@ -83,6 +84,10 @@ def showOutcome : Outcome → String
   | .ok => "ok" | .notImplemented => "raise:NotImplementedError" | .valueError => "raise:ValueError"
 def showOptRat : Option Rat → String
   | none => "undefined" | some q => showRat q
+
+def showRun : Run → String
+  | .ret _ => "ok" | .notImplemented => "raise:NotImplementedError"
+  | .valueError => "raise:ValueError" | .crash => "undocumented"
 
 def outside : String := "outside-model"
 
@@ -169,6 +174,13 @@ def answer (toks : List String) : String :=
   | ["rqa", cls, sparse, supThr, embedded, need] =>
     -- which quantification methods are defined (`Model/RecurrenceRqa.lean`)
     showOutcome (outcome ⟨cls? cls, sparse == "1", supThr == "1", embedded == "1"⟩ (need? need))
+  | ["rqam", cls, m, s, su, th, mv, d, t] =>
+    -- round 4: the outcome of `obj.m()` derived from the regenerated method bodies
+    -- (`Model/RecurrenceStruct.lean`, `Generated/StructC07.lean`)
+    showRun (runPublic cls ⟨s == "1", su == "1", th == "1", mv == "1", d == "1", t == "1"⟩ m)
+  | ["dline", n, mask, r] =>
+    -- round 4: `diagline_dist` as the method computes it (also on asymmetric matrices)
+    showNats (diaglineDist (boolMat r) n.toNat! (if mask == "none" then none else some (bools mask)))
   | ["rr", n, r] => showOptRat (recurrenceRate (boolMat r) n.toInt!)
   | ["crr", n, m, r] => showOptRat (crossRecurrenceRate (boolMat r) n.toInt! m.toInt!)
   | ["rprob", n, lag, r] => showOptRat (recurrenceProbability (boolMat r) n.toInt! lag.toNat!)
